@@ -6,6 +6,7 @@ import (
 	"verif/harness/checks/c03"
 	"verif/harness/checks/c04"
 	"verif/harness/checks/c06"
+	"verif/harness/checks/c07"
 	"verif/harness/checks/c08"
 	"verif/harness/checks/c09"
 	"verif/harness/checks/c10"
@@ -13,6 +14,7 @@ import (
 	"verif/harness/checks/c13"
 	"verif/harness/checks/c14"
 	"verif/harness/checks/c15"
+	"verif/harness/checks/c16"
 	"verif/harness/checks/c18"
 	"verif/harness/checks/c19"
 )
@@ -23,6 +25,7 @@ func init() {
 	register("C03", "exploration", c03.Run, c03.Replay)
 	register("C04", "fault_enumeration", c04.Run, c04.Replay)
 	register("C06", "model_checking", c06.Run, c06.Replay)
+	register("C07", "exploration", c07.Run, c07.Replay)
 	register("C08", "exploration", c08.Run, c08.Replay)
 	register("C09", "exploration", c09.Run, c09.Replay)
 	register("C10", "model_checking", c10.Run, c10.Replay)
@@ -30,6 +33,7 @@ func init() {
 	register("C13", "exploration", c13.Run, c13.Replay)
 	register("C14", "model_checking", c14.Run, c14.Replay)
 	register("C15", "model_checking", c15.Run, c15.Replay)
+	register("C16", "exploration", c16.Run, c16.Replay)
 	register("C18", "exploration", c18.Run, c18.Replay)
 	register("C19", "model_checking", c19.Run, c19.Replay)
 }
